@@ -40,3 +40,17 @@ Theorem C18_create_existing_fails_and_frames :
     run_instr s (ICreate c) = (false, s).
 Proof. exact create_existing_fails_and_frames. Qed.
 Print Assumptions C18_create_existing_fails_and_frames.
+
+(* with the clock unit and increment the code uses (regenerated from impl/timecounter.go): a later
+   manager starts above an earlier one unless the earlier one issued more ids than nanoseconds
+   elapsed *)
+Theorem C18_later_manager_starts_above_ns :
+  forall t1 t2 n1 n2 a b,
+    (t1 <= t2)%N -> (N.of_nat n1 <= t2 - t1)%N -> GenTimeCounter.tc_increment = 1%N ->
+    In a (issue (seed_at t1) n1) -> In b (issue (seed_at t2) n2) -> (a < b)%N.
+Proof. exact later_manager_starts_above_ns. Qed.
+Print Assumptions C18_later_manager_starts_above_ns.
+
+Theorem C18_counter_increment_is_one : GenTimeCounter.tc_increment = 1%N.
+Proof. exact counter_increment_is_one. Qed.
+Print Assumptions C18_counter_increment_is_one.
